@@ -105,20 +105,20 @@ Proof.
   destruct (dfixed_all_eq _ _ Hf (Hi x Hx)). split; congruence.
 Qed.
 
-Lemma filter_length_le' : forall (f : Z -> bool) d, (length (filter f d) <= length d)%nat.
+Lemma li_filter_length_le : forall (f : Z -> bool) d, (length (filter f d) <= length d)%nat.
 Proof.
   intros f. induction d as [|x r IH]; [cbn; lia|]. cbn [filter]. destruct (f x); cbn [length]; lia.
 Qed.
 
-Lemma filter_length_lt : forall (f : Z -> bool) d, filter f d <> d -> (length (filter f d) < length d)%nat.
+Lemma li_filter_length_lt : forall (f : Z -> bool) d, filter f d <> d -> (length (filter f d) < length d)%nat.
 Proof.
   intros f. induction d as [|x r IH]; intros H; [exfalso; apply H; reflexivity|].
   cbn [filter] in *. destruct (f x).
   - cbn [length]. apply -> Nat.succ_lt_mono. apply IH. intros E. apply H. rewrite E. reflexivity.
-  - cbn [length]. pose proof (filter_length_le' f r). lia.
+  - cbn [length]. pose proof (li_filter_length_le f r). lia.
 Qed.
 
-Lemma total_size_supd : forall s v d, (v < length s)%nat ->
+Lemma li_total_size_supd : forall s v d, (v < length s)%nat ->
   (total_size (supd s v d) + length (sget s v) = total_size s + length d)%nat.
 Proof.
   unfold sget. induction s as [|x r IH]; intros v d H; [cbn in H; lia|].
@@ -182,7 +182,7 @@ Lemma cstep_write : forall L s ev x d, In x L -> wf_store s -> (x < length s)%na
       (evn <> [] -> (total_size (fst c') < total_size s)%nat).
 Proof.
   intros L s ev x d HL Hwf Hx Hd Hsub Hlen c' E. inversion E; subst c'; clear E. cbn [fst snd].
-  pose proof (total_size_supd s x d Hx) as Hts.
+  pose proof (li_total_size_supd s x d Hx) as Hts.
   split; [apply sub_store_supd; exact Hsub|].
   split; [apply wf_store_supd; assumption|]. split; [lia|].
   exists [x]. split; [reflexivity|]. split.
@@ -202,7 +202,7 @@ Proof.
     + apply (cstep_write L s ev x (dbelow b (sget s x))); try assumption.
       * apply wf_dom_dbelow; assumption.
       * intros y Hy. apply dbelow_In in Hy. tauto.
-      * apply filter_length_lt. exact Hne.
+      * apply li_filter_length_lt. exact Hne.
   - rewrite cset_min_empty in E by (apply sget_oob; exact Hx). discriminate.
 Qed.
 
@@ -217,7 +217,7 @@ Proof.
     + apply (cstep_write L s ev x (dabove b (sget s x))); try assumption.
       * apply wf_dom_dabove; assumption.
       * intros y Hy. apply dabove_In in Hy. tauto.
-      * apply filter_length_lt. exact Hne.
+      * apply li_filter_length_lt. exact Hne.
   - rewrite cset_max_empty in E by (apply sget_oob; exact Hx). discriminate.
 Qed.
 
@@ -1092,5 +1092,153 @@ Proof.
         destruct (sm =? k); [exact I | exact F].
       * destruct (fixed_sum (fst c1) (combine cs xs) 0) as [sm|]; [|exact F].
         destruct (sm =? k); apply set_bool_fr; assumption.
+    + intros a1 a2 H. destruct (reif_sat_frame cs xs b a1 a2 H) as [-> ->]. reflexivity.
+Qed.
+
+(* ------------------------------------------------------------------------------------------ *)
+(* IntLinLeReif *)
+
+Lemma lsum_real_bounds : forall a s l,
+  (forall cf x, In (cf, x) l -> dmin (sget s x) <= a x <= dmax (sget s x)) ->
+  lsum (term_min s) l <= lsum (real a) l <= lsum (term_max s) l.
+Proof.
+  intros a s l HB. split; apply lsum_mono; intros cf x Hin;
+    apply (term_bounds s cf x (a x)); eapply HB; exact Hin.
+Qed.
+
+Lemma lsum_fixed : forall a s l, inst a s -> lfixed l s ->
+  lsum (term_min s) l = lsum (real a) l /\ lsum (term_max s) l = lsum (real a) l.
+Proof.
+  intros a s l Hi Hf. split; apply lsum_ext; intros cf x Hin;
+    destruct (lfixed_vals a s l Hi Hf cf x Hin) as [A B];
+    destruct (term_fixed s cf x (a x) A B) as [C D]; unfold real; assumption.
+Qed.
+
+Lemma lsum_term_agree : forall s1 s2 l, (forall cf x, In (cf, x) l -> sget s1 x = sget s2 x) ->
+  lsum (term_min s1) l = lsum (term_min s2) l /\ lsum (term_max s1) l = lsum (term_max s2) l.
+Proof.
+  intros s1 s2 l H. split; apply lsum_ext; intros cf x Hin; apply term_agree; eapply H; exact Hin.
+Qed.
+
+Theorem mk_lin_le_reif_good : forall cs xs k b, all_zero cs xs = false -> good (mk_lin_le_reif cs xs k b).
+Proof.
+  intros cs xs k b Hz.
+  pose proof (reif_vars_in cs xs b) as HL. pose proof (reif_b_in xs b) as Hb.
+  split; [|split; [|split]].
+  - apply cstep_contracting. intros c. cbn [prune trig mk_lin_le_reif]. unfold prune_lin_le_reif. cbv zeta.
+    destruct (reif_is b 1 c); [apply prune_lin_le_cstep; exact HL|].
+    destruct (reif_is b 0 c).
+    + destruct (fixed_sum (fst c) (combine cs xs) 0) as [sm|]; [|apply cstep_ret].
+      destruct (sm <=? k); [apply cstep_none | apply cstep_ret].
+    + rewrite sum_bounds_lsum.
+      destruct (_ <=? k); [apply set_bool_cstep; exact Hb|].
+      destruct (k <? _); [apply set_bool_cstep; exact Hb | apply cstep_ret].
+  - apply sstep_sound. intros a c Hsc Hsat. cbn [prune trig sat mk_lin_le_reif in_scope] in *.
+    destruct (reif_scope cs xs b _ Hsc) as [Hsl Hsb]. apply reif_sat_decode in Hsat.
+    intros Hwf Hi. pose proof (lbounds a (fst c) _ Hwf Hi Hsl) as HB.
+    pose proof (inst_bounds a (fst c) b Hwf Hi Hsb) as Bb.
+    generalize Hwf Hi. change (sstep a c (prune_lin_le_reif cs xs k b c)). unfold prune_lin_le_reif. cbv zeta.
+    destruct (reif_is b 1 c) eqn:R1.
+    { apply (reif_is_val a) in R1; [|exact Bb]. apply prune_lin_le_sound; [exact Hsl|].
+      destruct Hsat as [[_ P]|[A _]]; [apply Z.leb_le; exact P | lia]. }
+    destruct (reif_is b 0 c) eqn:R0.
+    { apply (reif_is_val a) in R0; [|exact Bb].
+      destruct (fixed_sum (fst c) (combine cs xs) 0) as [sm|] eqn:FS; [|apply sstep_ret].
+      apply (fixed_sum_sum a _ _ HB) in FS. rewrite <- lin_sem_lsum in FS.
+      destruct Hsat as [[A _]|[_ P]]; [lia|]. apply Z.leb_gt in P.
+      destruct (Z.leb_spec sm k); [exfalso; lia | apply sstep_ret]. }
+    rewrite sum_bounds_lsum. pose proof (lsum_real_bounds a (fst c) _ HB) as SB. rewrite <- lin_sem_lsum in SB.
+    destruct (Z.leb_spec (lsum (term_max (fst c)) (combine cs xs)) k) as [K|K].
+    { apply set_bool_sound; [exact Hsb|].
+      destruct Hsat as [[A _]|[_ P]]; [exact A|]. apply Z.leb_gt in P. exfalso; lia. }
+    destruct (Z.ltb_spec k (lsum (term_min (fst c)) (combine cs xs))) as [K'|K']; [|apply sstep_ret].
+    apply set_bool_sound; [exact Hsb|].
+    destruct Hsat as [[_ P]|[A _]]; [|exact A]. apply Z.leb_le in P. exfalso; lia.
+  - intros s ev a Hwf Hi Hf Hne. cbn [prune trig sat mk_lin_le_reif] in *.
+    destruct (reif_fixed cs xs b s Hf) as [Hfl Hfb].
+    destruct (fixed_value a s b Hi Hfb) as [Vmin Vmax].
+    apply reif_sat_encode. unfold prune_lin_le_reif in Hne. cbv zeta in Hne.
+    rewrite !(reif_is_fixed a b _ (s, ev) Vmin Vmax) in Hne.
+    rewrite (fixed_sum_fixed a s _ Hi Hfl) in Hne. rewrite sum_bounds_lsum in Hne. cbn [fst] in Hne.
+    destruct (lsum_fixed a s _ Hi Hfl) as [S1 S2]. rewrite S1, S2 in Hne.
+    rewrite <- lin_sem_lsum in Hne. rewrite Z.add_0_l in Hne.
+    destruct (Z.eqb_spec (a b) 1) as [B1|B1].
+    { left. split; [exact B1|]. apply Z.leb_le.
+      apply (prune_lin_le_checking a cs xs k (s, ev)); assumption. }
+    destruct (Z.eqb_spec (a b) 0) as [B0|B0].
+    { right. split; [exact B0|]. destruct (lin_sem (combine cs xs) a <=? k); [exfalso; apply Hne|]; reflexivity. }
+    exfalso. destruct (Z.leb_spec (lin_sem (combine cs xs) a) k) as [K|K].
+    + apply (set_bool_fixed b _ (s, ev) Hfb) in Hne. cbn [fst] in Hne. lia.
+    + destruct (Z.ltb_spec k (lin_sem (combine cs xs) a)) as [K'|K']; [|lia].
+      apply (set_bool_fixed b _ (s, ev) Hfb) in Hne. cbn [fst] in Hne. lia.
+  - apply fr_frame; cbn [prune trig sat mk_lin_le_reif].
+    + intros c1 c2 F. unfold prune_lin_le_reif. cbv zeta.
+      assert (HA : forall cf x, In (cf, x) (combine cs xs) -> sget (fst c1) x = sget (fst c2) x)
+        by (intros cf x Hin; apply (proj1 F); eapply HL; exact Hin).
+      rewrite <- !(reif_is_agree _ b _ c1 c2 Hb F).
+      rewrite <- (fixed_sum_agree (fst c1) (fst c2) (combine cs xs) HA).
+      rewrite !sum_bounds_lsum. destruct (lsum_term_agree _ _ _ HA) as [<- <-].
+      destruct (reif_is b 1 c1); [apply prune_lin_le_fr; assumption|].
+      destruct (reif_is b 0 c1).
+      * destruct (fixed_sum (fst c1) (combine cs xs) 0) as [sm|]; [|exact F].
+        destruct (sm <=? k); [exact I | exact F].
+      * destruct (_ <=? k); [apply set_bool_fr; assumption|].
+        destruct (k <? _); [apply set_bool_fr; assumption | exact F].
+    + intros a1 a2 H. destruct (reif_sat_frame cs xs b a1 a2 H) as [-> ->]. reflexivity.
+Qed.
+
+(* ------------------------------------------------------------------------------------------ *)
+(* IntLinNeReif *)
+
+Theorem mk_lin_ne_reif_good : forall cs xs k b, all_zero cs xs = false -> good (mk_lin_ne_reif cs xs k b).
+Proof.
+  intros cs xs k b Hz.
+  pose proof (reif_vars_in cs xs b) as HL. pose proof (reif_b_in xs b) as Hb.
+  split; [|split; [|split]].
+  - apply cstep_contracting. intros c. cbn [prune trig mk_lin_ne_reif]. unfold prune_lin_ne_reif. cbv zeta.
+    destruct (reif_is b 1 c); [apply prune_lin_ne_cstep; exact HL|].
+    destruct (reif_is b 0 c); [apply prune_lin_eq_cstep; exact HL|].
+    destruct (fixed_sum (fst c) (combine cs xs) 0) as [sm|]; [|apply cstep_ret].
+    destruct (negb (sm =? k)); apply set_bool_cstep; exact Hb.
+  - apply sstep_sound. intros a c Hsc Hsat. cbn [prune trig sat mk_lin_ne_reif in_scope] in *.
+    destruct (reif_scope cs xs b _ Hsc) as [Hsl Hsb]. apply reif_sat_decode in Hsat.
+    intros Hwf Hi. pose proof (lbounds a (fst c) _ Hwf Hi Hsl) as HB.
+    pose proof (inst_bounds a (fst c) b Hwf Hi Hsb) as Bb.
+    generalize Hwf Hi. change (sstep a c (prune_lin_ne_reif cs xs k b c)). unfold prune_lin_ne_reif. cbv zeta.
+    destruct (reif_is b 1 c) eqn:R1.
+    { apply (reif_is_val a) in R1; [|exact Bb]. apply prune_lin_ne_sound; [exact Hsl|].
+      destruct Hsat as [[_ P]|[A _]]; [apply negb_true_iff in P; apply Z.eqb_neq; exact P | lia]. }
+    destruct (reif_is b 0 c) eqn:R0.
+    { apply (reif_is_val a) in R0; [|exact Bb]. apply prune_lin_eq_sound; [exact Hsl|].
+      destruct Hsat as [[A _]|[_ P]]; [lia|]. apply negb_false_iff in P. apply Z.eqb_eq; exact P. }
+    destruct (fixed_sum (fst c) (combine cs xs) 0) as [sm|] eqn:FS; [|apply sstep_ret].
+    apply (fixed_sum_sum a _ _ HB) in FS. rewrite <- lin_sem_lsum in FS.
+    destruct (Z.eqb_spec sm k) as [K|K]; cbn [negb]; apply set_bool_sound; try exact Hsb.
+    + destruct Hsat as [[_ P]|[A _]]; [|exact A]. apply negb_true_iff, Z.eqb_neq in P. exfalso; lia.
+    + destruct Hsat as [[A _]|[_ P]]; [exact A|]. apply negb_false_iff, Z.eqb_eq in P. exfalso; lia.
+  - intros s ev a Hwf Hi Hf Hne. cbn [prune trig sat mk_lin_ne_reif] in *.
+    destruct (reif_fixed cs xs b s Hf) as [Hfl Hfb].
+    destruct (fixed_value a s b Hi Hfb) as [Vmin Vmax].
+    apply reif_sat_encode. unfold prune_lin_ne_reif in Hne. cbv zeta in Hne.
+    rewrite !(reif_is_fixed a b _ (s, ev) Vmin Vmax) in Hne.
+    rewrite (fixed_sum_fixed a s _ Hi Hfl) in Hne. cbn [fst] in Hne. rewrite <- lin_sem_lsum in Hne.
+    rewrite Z.add_0_l in Hne.
+    destruct (Z.eqb_spec (a b) 1) as [B1|B1].
+    { left. split; [exact B1|]. apply negb_true_iff, Z.eqb_neq.
+      apply (prune_lin_ne_checking a cs xs k (s, ev)); assumption. }
+    destruct (Z.eqb_spec (a b) 0) as [B0|B0].
+    { right. split; [exact B0|]. apply negb_false_iff, Z.eqb_eq.
+      apply (prune_lin_eq_checking a cs xs k (s, ev)); assumption. }
+    exfalso. destruct (negb (lin_sem (combine cs xs) a =? k));
+      apply (set_bool_fixed b _ (s, ev) Hfb) in Hne; cbn [fst] in Hne; lia.
+  - apply fr_frame; cbn [prune trig sat mk_lin_ne_reif].
+    + intros c1 c2 F. unfold prune_lin_ne_reif. cbv zeta.
+      rewrite <- !(reif_is_agree _ b _ c1 c2 Hb F).
+      rewrite <- (fixed_sum_agree (fst c1) (fst c2) (combine cs xs))
+        by (intros cf x Hin; apply (proj1 F); eapply HL; exact Hin).
+      destruct (reif_is b 1 c1); [apply prune_lin_ne_fr; assumption|].
+      destruct (reif_is b 0 c1); [apply prune_lin_eq_fr; assumption|].
+      destruct (fixed_sum (fst c1) (combine cs xs) 0) as [sm|]; [|exact F].
+      destruct (negb (sm =? k)); apply set_bool_fr; assumption.
     + intros a1 a2 H. destruct (reif_sat_frame cs xs b a1 a2 H) as [-> ->]. reflexivity.
 Qed.
